@@ -245,6 +245,15 @@ class MultiMatcher(mcore.Matcher):
     def block_quality(self):
         return self.matchers[self.current].block_quality()
 
+    def skip_to_quality(self, minquality):
+        skipped = 0
+        while self.is_active() and self.block_quality() <= minquality:
+            mr = self.matchers[self.current]
+            skipped += mr.skip_to_quality(minquality)
+            if not mr.is_active():
+                self._next_matcher()
+        return skipped
+
     def weight(self):
         return self.matchers[self.current].weight()
 
